@@ -382,3 +382,78 @@ def _afm_attrs(draw, fname):
 AFM_OPS = ("NOT", "AND", "OR", "IMPLIES", "EQUIVALENCE", "REQUIRES", "EXCLUDES")
 AFM = Profile(afm_names(), single=("mandatory", "optional"), group=("card", "card", "alternative", "or", "mutex"),
               layout="free", abstract=False, attrs=_afm_attrs, ctc_ops=AFM_OPS, ctc_depth=5, ctc_max=4)
+
+
+# ------------------------------------------------------------------ UVL
+def uvl_attr_names():
+    pool = ["cost", "w", "a b", "1x", "_u", "mandatory", "true", "é", "x-y", "Integer", "or", "k#", "q?"]
+    return st.one_of(ident_names(6), st.sampled_from(pool), uvl_names()).filter(lambda s: s != "abstract")
+
+
+def uvl_strings():
+    alphabet = st.one_of(st.sampled_from(string.ascii_letters + string.digits + " _-+*/,:;()[]{}<>=!?#%&|@^~\"\\"),
+                         st.characters(min_codepoint=0xA1, max_codepoint=0x2FFF,
+                                       blacklist_categories=("Cc", "Cs", "Cn", "Zl", "Zp", "Cf", "Co")))
+    return st.text(alphabet=alphabet, min_size=1, max_size=8)
+
+
+def uvl_values():
+    scalars = st.one_of(st.none(), st.booleans(), st.integers(-10**9, 10**9), st.sampled_from([0, 1, -1, 2**70]),
+                        plain_floats(), uvl_strings(), st.sampled_from(["true", "0", "abstract", "a b"]))
+    inner = st.one_of(st.booleans(), st.integers(-1000, 1000), plain_floats(), uvl_strings())
+    keys = st.one_of(ident_names(5), st.sampled_from(["a b", "1k", "or"]))
+    return st.one_of(scalars, scalars,
+                     st.recursive(inner, lambda ch: st.one_of(st.lists(ch, max_size=3),
+                                                              st.dictionaries(keys, ch, max_size=3)), max_leaves=5))
+
+
+def _uvl_attrs(draw, fname):
+    if draw(st.integers(0, 2)):
+        return []
+    anames = draw(st.lists(uvl_attr_names(), min_size=1, max_size=3, unique=True))
+    return [{"name": a, "value": draw(uvl_values())} for a in anames]
+
+
+UVL_LOGICAL = ("NOT", "AND", "OR", "IMPLIES", "EQUIVALENCE", "REQUIRES", "EXCLUDES")
+
+
+def _uvl_ctc(draw, names, feats):
+    kind = draw(st.integers(0, 5))
+    if kind <= 2:
+        return draw(expr_of_depth(names, UVL_LOGICAL, draw(st.integers(0, 4))))
+    attr_pool = ["cost", "w", "a b", "1x", "é"]
+
+    def ref():
+        return ["T", draw(st.sampled_from(names)) + "." + draw(st.sampled_from(attr_pool))]
+
+    def arith(d):
+        c = draw(st.integers(0, 5))
+        if d <= 0 or c == 0:
+            return ref()
+        if c == 1:
+            return ["I", draw(st.integers(0, 10**6))]
+        if c == 2:
+            return ["F", draw(plain_floats())["$float"].lstrip("-")]
+        if c == 3:
+            return [draw(st.sampled_from(["SUM", "AVG"])), ["T", draw(st.sampled_from(attr_pool))],
+                    ["T", draw(st.sampled_from(names))]]
+        return [draw(st.sampled_from(logic.ARITH)), arith(d - 1), arith(d - 1)]
+
+    op = draw(st.sampled_from(logic.COMPARISON))
+    if op in ("EQUALS", "NOT_EQUALS") and draw(st.integers(0, 3)) == 0:
+        lit = draw(st.text(alphabet=string.ascii_letters + string.digits + " _-+", min_size=1, max_size=5))
+        cmp_ = [op, ref(), ["S", "'" + lit + "'"]]
+    else:
+        cmp_ = [op, arith(2), arith(2)]
+    if kind == 3:
+        return cmp_
+    if kind == 4:
+        return [draw(st.sampled_from(["AND", "OR", "IMPLIES", "EQUIVALENCE"])), cmp_,
+                draw(expr_of_depth(names, UVL_LOGICAL, 1))]
+    return ["NOT", cmp_]
+
+
+UVL = Profile(uvl_names(), single=("mandatory", "optional", "card1", "star1"),
+              group=("alternative", "or", "mutex", "card", "star"), layout="free",
+              ftypes=("BOOLEAN", "BOOLEAN", "BOOLEAN", "INTEGER", "REAL", "STRING"), fcards=True, abstract=True,
+              attrs=_uvl_attrs, ctc_max=4, ctc_expr=_uvl_ctc)
